@@ -71,6 +71,14 @@ def _needs_quote(name: str) -> bool:
 	return False
 
 
+def _int_text(v) -> str:
+	"""Decimal text of an int; beyond the interpreter's int-to-str digit limit, exact hexadecimal."""
+	try:
+		return str(v)
+	except ValueError:
+		return ("-" if v < 0 else "") + hex(abs(v))
+
+
 def _format_column(col, max_preview: int | None = None) -> List[str]:
 	"""Returns a list of strings representing that column, truncated for display."""
 	# Use global default if not specified
@@ -91,11 +99,14 @@ def _format_column(col, max_preview: int | None = None) -> List[str]:
 			out.append('...')
 		elif v is None:
 			out.append('None')
+		elif col._dtype and col._dtype.kind is float and isinstance(v, int):
+			# an int kept in a float column (it may be too large for a float)
+			out.append(_int_text(int(v)) + ".0")
 		elif col._dtype and col._dtype.kind is float:
 			# NaN and infinities have no integer value; format them as-is
 			out.append(f"{v:.1f}" if (v == v and v not in (float('inf'), float('-inf')) and v == int(v)) else f"{v:g}")
 		elif col._dtype and col._dtype.kind is int:
-			out.append(str(v))
+			out.append(_int_text(v))
 		elif col._dtype and col._dtype.kind is date:
 			out.append(v.isoformat())
 		elif col._dtype and col._dtype.kind is str:
@@ -303,8 +314,10 @@ def _repr_vector(v) -> str:
 	# Compute width: max of data and header (if present)
 	data_width = max(len(s) for s in formatted) if formatted else 0
 	header_width = 0
-	if v._name:
-		header_text = repr(v._name) if _needs_quote(v._name) else v._name
+	# (a label such as 5 or ('a', 1) is a name too: shown through its text)
+	name_text = v._name if isinstance(v._name, str) or v._name is None else str(v._name)
+	if name_text:
+		header_text = repr(name_text) if _needs_quote(name_text) else name_text
 		header_width = len(header_text)
 	
 	width = max(data_width, header_width)
@@ -318,7 +331,7 @@ def _repr_vector(v) -> str:
 	lines = []
 
 	# Optional vector name
-	if v._name:
+	if name_text:
 		lines.append(header_text.ljust(width) if not v._dtype or v._dtype.kind not in (int, float) else header_text.rjust(width))
 
 	lines.extend(formatted)
